@@ -18,7 +18,6 @@ import (
 	"context"
 	"fmt"
 	"io"
-	"reflect"
 	"sync"
 
 	"github.com/google/badwolf/bql/planner/tracer"
@@ -608,7 +607,7 @@ func tripleToRow(t *triple.Triple, cls *semantic.GraphClause) (table.Row, error)
 		if !ok {
 			return true
 		}
-		if reflect.DeepEqual(c, v) {
+		if equalCells(c, v) {
 			return true
 		}
 		return false
